@@ -183,7 +183,8 @@ theorem SpellsM_cons (c : Cfg) (props : List PropDef) (fs : Fields) (used : List
   simp only [SpellsM]
 
 mutual
-theorem spellsV_dec (c : Cfg) (hs : c.env.flat = true) (fld : Field) (vv : PVal) (t : PTree)
+theorem spellsV_dec (c : Cfg) (hs : c.env.flat = true)
+    (hA : c.protoToAny = false ∨ c.env.noAny = true) (fld : Field) (vv : PVal) (t : PTree)
     (hfs : fieldSimple fld = true) (hok : valOk c.env c.O fld vv = true) (h : SpellsV c fld vv t) :
     Dec c fld vv t := by
   cases t with
@@ -192,7 +193,7 @@ theorem spellsV_dec (c : Cfg) (hs : c.env.flat = true) (fld : Field) (vv : PVal)
     | object ref =>
       obtain ⟨fs, props, rfl, hfind, hsort, hfok, hgrp, hexp⟩ := valOk_object _ _ ref vv hok
       simp only [SpellsV, hfind] at h
-      obtain ⟨seen', hdec⟩ := spellsM_loop c hs props fs (find_rootFlat c.env hs ref _ hfind) hsort hfok
+      obtain ⟨seen', hdec⟩ := spellsM_loop c hs hA props fs (find_rootFlat c.env hs ref _ hfind) hsort hfok
         hgrp ms [] h [] rfl (fun _ hq => by cases hq) { m := [], seen := [] }
         (by simp [restrictP_nil]) (fun _ _ _ => by simp)
       exact Dec_object c ref props fs ms seen' hfind hdec
@@ -200,7 +201,7 @@ theorem spellsV_dec (c : Cfg) (hs : c.env.flat = true) (fld : Field) (vv : PVal)
       obtain ⟨fs, ops, rfl, hfind, hsort, hfok, hlen⟩ := valOk_oneof _ _ ref vv hok
       simp only [SpellsV, hfind] at h
       have hroot := rootFlat_oneof c.env ops (find_rootFlat c.env hs ref _ hfind)
-      have hres := spellsO_dec c hs ops fs hroot (oneof_store_facts c ops fs hroot hfok) ms h []
+      have hres := spellsO_dec c hs hA ops fs hroot (oneof_store_facts c ops fs hroot hfok) ms h []
         (fun _ _ _ _ => rfl)
       cases hres with
       | empty seen1 found ct hnone hloop hpost =>
@@ -216,7 +217,7 @@ theorem spellsV_dec (c : Cfg) (hs : c.env.flat = true) (fld : Field) (vv : PVal)
       obtain ⟨kvs, rfl, hmok⟩ := valOk_map _ _ item vv hok
       have hi : itemSimple item = true := by simpa [fieldSimple] using hfs
       simp only [SpellsV] at h
-      have hdec := spellsMap_dec c hs item kvs ms hi [] hmok h [] (fun _ _ => rfl)
+      have hdec := spellsMap_dec c hs hA item kvs ms hi [] hmok h [] (fun _ _ => rfl)
       simp only [List.nil_append] at hdec
       -- `Dec_map` is stated for `membersOf`; restate through the same unfolding
       refine ⟨?_, by intro h'; simp [itemSimple] at h', by intro h'; simp [itemSimple] at h'⟩
@@ -231,7 +232,17 @@ theorem spellsV_dec (c : Cfg) (hs : c.env.flat = true) (fld : Field) (vv : PVal)
       simp [finishMapProp, Outcome.bind, closeOk]
     | scalar k => simp [SpellsV] at h
     | «enum» ref => simp [SpellsV] at h
-    | any pb => cases vv <;> simp [SpellsV] at h
+    | any pb =>
+      simp only [SpellsV] at h
+      obtain ⟨rfl, tn, V, l1, l2, l3, rfl, hc, hd, hms⟩ := h
+      obtain ⟨_, _, _, _, hna, _⟩ := valOk_any _ _ _ hok
+      have hmode : c.protoToAny = false := by
+        rcases hA with h1 | h1
+        · exact h1
+        · rw [h1] at hna; cases hna
+      rcases hms with rfl | rfl
+      · exact Dec_any c hmode tn l1 l2 l3 V hc hd
+      · exact Dec_any_rev c hmode tn l1 l2 l3 V hc hd
     | array item => cases vv <;> simp [SpellsV] at h
   | arr xs =>
     cases fld with
@@ -239,7 +250,7 @@ theorem spellsV_dec (c : Cfg) (hs : c.env.flat = true) (fld : Field) (vv : PVal)
       obtain ⟨vs, rfl, hlok⟩ := valOk_array _ _ item vv hok
       have hi : itemSimple item = true := by simpa [fieldSimple] using hfs
       simp only [SpellsV] at h
-      have hdec := spellsE_dec c hs item vs xs hi hlok h []
+      have hdec := spellsE_dec c hs hA item vs xs hi hlok h []
       simp only [List.nil_append] at hdec
       refine ⟨?_, by intro h'; simp [itemSimple] at h', by intro h'; simp [itemSimple] at h'⟩
       intro props p st hf hp hsn hg hgb
@@ -289,7 +300,8 @@ theorem spellsV_dec (c : Cfg) (hs : c.env.flat = true) (fld : Field) (vv : PVal)
     | _ => simp [SpellsV] at h
 termination_by sizeOf t
 
-theorem spellsM_loop (c : Cfg) (hs : c.env.flat = true) (props : List PropDef) (fs : Fields)
+theorem spellsM_loop (c : Cfg) (hs : c.env.flat = true)
+    (hA : c.protoToAny = false ∨ c.env.noAny = true) (props : List PropDef) (fs : Fields)
     (hroot : rootFlat c.env (.object props) = true) (hsort : asorted fs = true)
     (hfok : fieldsOk c.env c.O props fs = true) (hgrp : groupsOk props fs = true)
     (ms : PMembers) (used : List Bytes) (h : SpellsM c props fs used ms)
@@ -355,7 +367,7 @@ theorem spellsM_loop (c : Cfg) (hs : c.env.flat = true) (props : List PropDef) (
       subst hnull
       rw [decProp_null]
       simp only []
-      exact spellsM_loop c hs props fs hroot hsort hfok hgrp rest used hrest ups hused hups st hm hseen
+      exact spellsM_loop c hs hA props fs hroot hsort hfok hgrp rest used hrest ups hused hups st hm hseen
     · -- a property of the message
       have hpu : p ∉ ups := by
         apply (unused_of_name props ups hnames hups p hpm).mp
@@ -378,10 +390,10 @@ theorem spellsM_loop (c : Cfg) (hs : c.env.flat = true) (props : List PropDef) (
         rcases hkinds p hpm with h1 | h1
         · exact (propFlat_inv p h1).2
         · exact absurd (propExposed_inv c.env p h1).1 hpne
-      have hdec := spellsV_dec c hs p.field vv v hfsimple hvok hsp
+      have hdec := spellsV_dec c hs hA p.field vv v hfsimple hvok hsp
       rw [step_leaf c props fs p st _ hctx vv v hpne hget hdec hz (valOk_not_emptyColl _ _ _ _ hvok)]
       simp only []
-      exact spellsM_loop c hs props fs hroot hsort hfok hgrp rest (k :: used) hrest (p :: ups)
+      exact spellsM_loop c hs hA props fs hroot hsort hfok hgrp rest (k :: used) hrest (p :: ups)
         (by rw [hused, List.map_cons, hname]) (fun q hq => by
           rcases List.mem_cons.mp hq with rfl | hq'
           · exact hpm
@@ -423,7 +435,7 @@ theorem spellsM_loop (c : Cfg) (hs : c.env.flat = true) (props : List PropDef) (
       | obj ms' =>
         rw [hops] at hbody
         simp only [SpellsX] at hbody
-        have hres := spellsO_dec c hs ops fs hopsroot hvals ms' hbody st.m htarget
+        have hres := spellsO_dec c hs hA ops fs hopsroot hvals ms' hbody st.m htarget
         have hpaths_inv : ∀ x ∈ propPaths c.env p, ∃ q ∈ ops, ∃ k', q.path = [k'] ∧ x = [k'] := by
           intro x hx
           obtain ⟨b, hb, rfl⟩ := List.mem_map.mp hx
@@ -450,7 +462,7 @@ theorem spellsM_loop (c : Cfg) (hs : c.env.flat = true) (props : List PropDef) (
                 rw [hq'k] at this; exact this) hloop hpost
         rw [hstep]
         simp only []
-        exact spellsM_loop c hs props fs hroot hsort hfok hgrp rest (k :: used) hrest (p :: ups)
+        exact spellsM_loop c hs hA props fs hroot hsort hfok hgrp rest (k :: used) hrest (p :: ups)
           (by rw [hused, List.map_cons, hname]) (fun q hq => by
             rcases List.mem_cons.mp hq with rfl | hq'
             · exact hpm
@@ -461,7 +473,8 @@ theorem spellsM_loop (c : Cfg) (hs : c.env.flat = true) (props : List PropDef) (
       | _ => simp [SpellsX] at hbody
 termination_by sizeOf ms
 
-theorem spellsO_dec (c : Cfg) (hs : c.env.flat = true) (ops : List PropDef) (fs : Fields)
+theorem spellsO_dec (c : Cfg) (hs : c.env.flat = true)
+    (hA : c.protoToAny = false ∨ c.env.noAny = true) (ops : List PropDef) (fs : Fields)
     (hroot : rootSimple (.oneof ops) = true)
     (hvals : ∀ q ∈ ops, ∀ k v, q.path = [k] → aget k fs = some v →
       valOk c.env c.O q.field v = true ∧ (q.pres == .imp && v.isZero) = false)
@@ -477,7 +490,7 @@ theorem spellsO_dec (c : Cfg) (hs : c.env.flat = true) (ops : List PropDef) (fs 
     intro k1 v1 q kk vv hsz hfq hqk hag hsp
     have hq := findProp_mem ops k1 q hfq
     obtain ⟨hvok, hz⟩ := hvals q hq kk vv hqk hag
-    have hdec := spellsV_dec c hs q.field vv v1 (propSimple_field q (hsimple q hq)) hvok hsp
+    have hdec := spellsV_dec c hs hA q.field vv v1 (propSimple_field q (hsimple q hq)) hvok hsp
     refine ⟨hq, findProp_name ops k1 q hfq, ?_⟩
     exact oneof_member_step c ops q kk vv v1 m hqk hdec hz (valOk_not_emptyColl _ _ _ _ hvok)
       (htarget q hq kk hqk) (fun q' hq' k' hk' _ => htarget q' hq' k' hk')
@@ -514,7 +527,8 @@ theorem spellsO_dec (c : Cfg) (hs : c.env.flat = true) (ops : List PropDef) (fs 
       | cons k3 kr3 v3 rest3 => simp [SpellsO] at h
 termination_by sizeOf ms
 
-theorem spellsE_dec (c : Cfg) (hs : c.env.flat = true) (item : Field) (vs : List PVal) (xs : PElems)
+theorem spellsE_dec (c : Cfg) (hs : c.env.flat = true)
+    (hA : c.protoToAny = false ∨ c.env.noAny = true) (item : Field) (vs : List PVal) (xs : PElems)
     (hi : itemSimple item = true) (hlok : listOk c.env c.O item vs = true) (h : SpellsE c item vs xs)
     (acc : List PVal) : decElems c item xs acc = .ok (acc ++ vs, .closed) := by
   cases xs with
@@ -526,12 +540,13 @@ theorem spellsE_dec (c : Cfg) (hs : c.env.flat = true) (item : Field) (vs : List
     simp only [SpellsE] at h
     obtain ⟨v, vs', rfl, hsp, hrest⟩ := h
     simp only [listOk, Bool.and_eq_true] at hlok
-    have hdec := spellsV_dec c hs item v t (itemSimple_field item hi) hlok.1 hsp
-    rw [hdec.elem hi, spellsE_dec c hs item vs' rest hi hlok.2 hrest]
+    have hdec := spellsV_dec c hs hA item v t (itemSimple_field item hi) hlok.1 hsp
+    rw [hdec.elem hi, spellsE_dec c hs hA item vs' rest hi hlok.2 hrest]
     simp
 termination_by sizeOf xs
 
-theorem spellsMap_dec (c : Cfg) (hs : c.env.flat = true) (item : Field) (kvs : List (Bytes × PVal))
+theorem spellsMap_dec (c : Cfg) (hs : c.env.flat = true)
+    (hA : c.protoToAny = false ∨ c.env.noAny = true) (item : Field) (kvs : List (Bytes × PVal))
     (ms : PMembers) (hi : itemSimple item = true) (seen : List Bytes)
     (hmok : mapOk c.env c.O item seen kvs = true) (h : SpellsMap c item kvs ms)
     (acc : List (Bytes × PVal)) (hacc : ∀ k, k ∉ seen → mget k acc = none) :
@@ -546,9 +561,9 @@ theorem spellsMap_dec (c : Cfg) (hs : c.env.flat = true) (item : Field) (kvs : L
     obtain ⟨v, kvs', rfl, hsp, hrest⟩ := h
     obtain ⟨hks, _, hvok, hok'⟩ := mapOk_cons _ _ _ _ _ _ _ hmok
     have hmg : mget k acc = none := hacc k hks
-    have hdec := spellsV_dec c hs item v t (itemSimple_field item hi) hvok hsp
+    have hdec := spellsV_dec c hs hA item v t (itemSimple_field item hi) hvok hsp
     rw [hdec.mapv hi k kr _ acc hmg, mset_append k v acc hmg,
-      spellsMap_dec c hs item kvs' rest hi (k :: seen) hok' hrest]
+      spellsMap_dec c hs hA item kvs' rest hi (k :: seen) hok' hrest]
     · simp
     · intro k2 hk2
       simp only [List.mem_cons, not_or] at hk2
@@ -562,7 +577,8 @@ namespace J5V.Codec
 open J5V.Go J5V.Json
 
 /-- **every admissible spelling of a representable message decodes to exactly that message** -/
-theorem spells_root_decodes (c : Cfg) (hs : c.env.flat = true) (root : String) (m : Fields) (t : PTree)
+theorem spells_root_decodes (c : Cfg) (hs : c.env.flat = true)
+    (hA : c.protoToAny = false ∨ c.env.noAny = true) (root : String) (m : Fields) (t : PTree)
     (hok : valOk c.env c.O (.object root) (.msg m) = true ∨ valOk c.env c.O (.oneof root) (.msg m) = true)
     (h : SpellsRoot c root m t) : decRootTree c root t = .ok m := by
   unfold SpellsRoot at h
@@ -573,7 +589,7 @@ theorem spells_root_decodes (c : Cfg) (hs : c.env.flat = true) (root : String) (
     cases t with
     | obj ms =>
       simp only [] at h
-      obtain ⟨seen', hdec⟩ := spellsM_loop c hs props m (find_rootFlat c.env hs root _ hfind) hsort hfok
+      obtain ⟨seen', hdec⟩ := spellsM_loop c hs hA props m (find_rootFlat c.env hs root _ hfind) hsort hfok
         hgrp ms [] h [] rfl (fun _ hq => by cases hq) { m := [], seen := [] }
         (by simp [restrictP_nil]) (fun _ _ _ => by simp)
       simp [decRootTree, hfind, hdec, finishObject, closeOk]
@@ -585,7 +601,7 @@ theorem spells_root_decodes (c : Cfg) (hs : c.env.flat = true) (root : String) (
     cases t with
     | obj ms =>
       simp only [] at h
-      have hres := spellsO_dec c hs ops m hroot (oneof_store_facts c ops m hroot hfok) ms h []
+      have hres := spellsO_dec c hs hA ops m hroot (oneof_store_facts c ops m hroot hfok) ms h []
         (fun _ _ _ _ => rfl)
       cases hres with
       | empty seen1 found ct hnone hloop hpost =>
